@@ -63,14 +63,18 @@ func (endpoint *PairVerify) ServeHTTP(response http.ResponseWriter, request *htt
 
 		// When key verification is done, switch to a secure session
 		// based on the negotiated shared session key
+		// and only when the finish response does not carry an error code
 		b := out.GetByte(pair.TagSequence)
 		switch pair.VerifyStepType(b) {
 		case pair.VerifyStepFinishResponse:
+			if out.GetByte(pair.TagErrCode) != 0 {
+				break
+			}
 			if secSession, err = crypto.NewSecureSessionFromSharedKey(ctlr.SharedKey()); err == nil {
 				log.Debug.Println("Setup secure session")
 				session.SetCryptographer(secSession)
 			} else {
-				log.Info.Panic("Could not setup secure session.", err)
+				log.Info.Println("Could not setup secure session.", err)
 			}
 		}
 	}
